@@ -64,3 +64,11 @@ let () =
 let () =
   (* H09B: the HTTP upgraders when the hijacked reader already holds client bytes; judged as H09 *)
   register "H09B" (fun i o -> (Hashtbl.find handlers "H09") i o)
+
+let () =
+  (* C12U: a compressed message whose source is cut and says so must end in an error at every cut offset *)
+  register "C12U" (fun i o -> match i, o with
+    | [_; k; _], [iserr; n] ->
+      if iserr <> "1" then Viol (Printf.sprintf "a compressed message cut after %s bytes (source reporting io.ErrUnexpectedEOF) was read without error (%s bytes delivered as if complete)" k n)
+      else Pass true
+    | _ -> Diff "malformed line")
